@@ -9,8 +9,8 @@
 package main
 
 import (
-	"encoding/json"
 	"bytes"
+	"encoding/json"
 	"fmt"
 	"os"
 	"os/exec"
@@ -82,7 +82,7 @@ func main() {
 	if err != nil {
 		vf.Fatal("%v", err)
 	}
-	if _, err := regen.Generate(spec, regen.Features("paths/server", "paths/client"), sc.Path("api"), "api"); err != nil {
+	if _, err := regen.Generate(spec, regen.Features("paths/server", "paths/client", "client/request/options"), sc.Path("api"), "api"); err != nil {
 		vf.Fatal("C19 spec does not generate: %v", err)
 	}
 	gomod, _ := os.ReadFile(filepath.Join(r.Repo, "go.mod"))
@@ -214,7 +214,7 @@ func main() {
 		"every schedule is an execution of the real regenerated code: traces_validated_against_impl = schedules; there is no separate model",
 		"the free-running -race pass is sampling and only reported (race_pass); weak-memory effects and net/http's own goroutines are outside the exploration",
 		"regexp2's match-timeout clock goroutine runs outside the scheduler; it only writes an atomic time stamp")
-	r.Finish("threads x calls: quick = 2 logical threads x 1 call each, every multiset of 2 calls from a menu of 19 (same operation with different values, validating vs failing requests through the pooled error encoder, fallback-regex and RE2 patterns, form body, two streaming bodies), preemption bound 2; thorough = additionally 3 threads x 1 call (bound 2) and 2 threads x 2 calls (bound 2). Oracle per schedule: every call's (handler-received arguments, returned value or error) equals the result of the same call run alone; no deadlock. Determinism of the harness is proven on every shard by replaying the first and last schedule twice.")
+	r.Finish("threads x calls: quick = 2 logical threads x 1 call each, every multiset of 2 calls from a menu of 21 (same operation with different values, validating vs failing requests through the pooled error encoder, fallback-regex and RE2 patterns, form body, two streaming bodies), preemption bound 2; thorough = additionally 3 threads x 1 call (bound 2) and 2 threads x 2 calls (bound 2). Oracle per schedule: every call's (handler-received arguments, returned value or error) equals the result of the same call run alone; no deadlock. Determinism of the harness is proven on every shard by replaying the first and last schedule twice.")
 }
 
 func firstN(s string, n int) string {
